@@ -737,6 +737,7 @@ class Path(parent.Geometry):
             entities=copy.deepcopy(self.entities),
             vertices=copy.deepcopy(self.vertices),
             metadata=metadata,
+            vertex_attributes=copy.deepcopy(self.vertex_attributes),
             process=False,
         )
 
